@@ -237,6 +237,14 @@ def hex_bitmap_spellings(data, hex_bitmap):
     for pos in (5, 19, 20, 35):
         for ch in (b'_', b' ', b'x', b'+'):
             yield 'hexbitmap@%d=%r' % (pos - 4, ch.decode()), data[:pos] + ch + data[pos + 1:]
+    # whole hex pairs replaced by white space (a lenient hex parser skips them and comes back with fewer than 16 bytes):
+    # each pair in turn, the last two, three and eight pairs, and the whole bitmap
+    for wd in (b'  ', b'\t\t', b'\n\n', b'\r\n', b' \t'):
+        for k in range(16):
+            pos = 4 + 2 * k
+            yield 'hexbitmap:pair%d=%r' % (k, wd.decode()), data[:pos] + wd + data[pos + 2:]
+        for tail in (2, 3, 8, 16):
+            yield 'hexbitmap:last%dpairs=%r' % (tail, wd.decode()), data[:36 - 2 * tail] + wd * tail + data[36:]
 
 
 def edge_trims(data):
